@@ -13,8 +13,9 @@ SOURCES = ["TLVerif.Syntaxtl2.Basic", "TLVerif.Syntaxtl2.Lexer", "TLVerif.Syntax
 
 def check_error(c, line, text, out):
     """the property's own oracle on one implementation output of syntaxtl2.parse"""
-    if out == "panic" or out == "CRASH":
-        c.oracle_fail(line, "ParseTL2File or printing its error panicked", line)
+    if out.startswith("panic") or out == "CRASH":
+        c.oracle_fail(line, "printing the returned error (Error()/ConsolePrint/PrintWarning) panicked" if out == "panic print"
+                      else "ParseTL2File or printing its error panicked", line)
         return
     if not out.startswith("err "):
         return
@@ -61,6 +62,8 @@ def run(c):
         texts.append(("corpus", t))
     for t in G.comment_positions():
         texts.append(("comment-positions", t))
+    for t in G.number_positions():
+        texts.append(("number-positions", t))
     big = [t for _, t in corp if len(t) > 200]
     small = [t for _, t in corp if 0 < len(t) <= 200]
     scale = 8 if c.thorough else 1
@@ -121,7 +124,7 @@ def run(c):
         elif "norecombine" in a.split(" ")[0]:
             c.oracle_fail(l, "tokens do not recombine to the input (ParseTL2File would log.Panicf)", l)
     c.extra["rule"] = ("one case = one input text, parsed by tlast.ParseTL2File under recover and lexed by the shared lexer; texts: all "
-                       "TL2 texts of the repository (*.tl2 + raw-string snippets of the TL2 parser/lexer tests), all 1-byte strings, all "
+                       "TL2 texts of the repository (*.tl2 + raw-string snippets of the TL2 parser/lexer tests), a directed family with boundary numbers (0 … 2^32±1 … 2^64 … 40 digits, leading zeros) in every numeric position, all 1-byte strings, all "
                        "pairs of %d lexemes%s, random bytes, token soups, grammar-shaped soups, files from the type-directed generator and "
                        "their 1-3 edit mutations, mutated/truncated repository files; duplicates removed; distinct = distinct text; "
                        "every text is non-trivial (a different input); histogram gen:<generator>:<ok|err|panic>"
